@@ -251,7 +251,7 @@ class Opaque:
         return "<%s>" % self.tag
 
 
-DISCR = {'None': 0, 'Some': 1, 'Ok': 0, 'Err': 1, 'Less': -1, 'Equal': 0, 'Greater': 1}
+DISCR = {'None': 0, 'Some': 1, 'Ok': 0, 'Err': 1, 'Less': -1, 'Equal': 0, 'Greater': 1, 'Continue': 0, 'Break': 1}
 
 
 def copyval(v):
@@ -448,6 +448,8 @@ def parse_operand(s):
         return ('move', parse_place(s[5:]))
     if s.startswith('const '):
         return ('const', s[6:].strip())
+    if re.match(r'^[A-Za-z<][\w:<>\[\], &\']*$', s) and '::' in s:
+        return ('const', s)                   # a function item passed by value is printed as its bare path
     raise Unsupported('operand ' + s)
 
 
@@ -466,7 +468,10 @@ def parse_rvalue(s):
     if m and m.group(1) == 'Len':
         return ('len', parse_place(m.group(2)))
     if s.startswith('&raw mut ') or s.startswith('&raw const '):
-        return ('ref', parse_place(s.split(' ', 2)[2]))
+        rest = s.split(' ', 2)[2]
+        if rest.startswith('(fake) '):        # pointer taken only for its metadata (slice length in a bounds check)
+            rest = rest[7:]
+        return ('ref', parse_place(rest))
     if s.startswith('&mut '):
         return ('ref', parse_place(s[5:]))
     if s.startswith('&') and not s.startswith('&&'):
@@ -770,6 +775,9 @@ class Machine:
             if len(cands) >= 1:
                 v = self.run(cands[0], [], fr.subst)
                 return v
+        # a function item used as a value (e.g. passed to an iterator adaptor): callable by its path
+        if re.match(r'^[\w<][\w:<>\[\], &\']*$', s) and '::' in s and self.prog.is_callable(fr, s):
+            return Opaque('fnitem', s)
         raise Unsupported('const ' + s)
 
     def operand(self, fr, op):
@@ -1220,6 +1228,15 @@ class Program:
                 self.models[pattern] = fn
             return fn
         return deco
+
+    def is_callable(self, fr, callee):
+        try:
+            for r in self.resolvers:
+                if r(self, fr, callee):
+                    return True
+        except Unsupported:
+            return False
+        return callee in self.models or any(rx.match(callee) for rx, _ in self.model_rx)
 
     def call(self, m, fr, callee, args):
         for r in self.resolvers:
